@@ -55,8 +55,10 @@ def parse_graph(out):
     return init, edges
 
 
-def transition_cover(init, edges, rnd, maxlen=40):
-    """Walks from the initial state that together traverse every transition at least once."""
+def transition_cover(init, edges, rnd, maxlen=80):
+    """Walks from the initial state that together traverse every transition at least once: deepest states
+    first (their tree paths cover the tree edges on the way), then greedy extension through transitions not
+    yet covered, with one step of look-ahead through covered ones."""
     ids = {}
 
     def nid(k):
@@ -65,39 +67,83 @@ def transition_cover(init, edges, rnd, maxlen=40):
         return ids[k]
     s0 = nid(init)
     out = {}
+    E = []
     for a, rec, b in edges:
-        out.setdefault(nid(a), []).append((rec, nid(b)))
+        E.append((nid(a), rec, nid(b)))
+        out.setdefault(E[-1][0], []).append(len(E) - 1)
     for l in out.values():
         rnd.shuffle(l)
-    # breadth-first tree
-    parent = {s0: None}
+    parent = {s0: None}          # breadth-first tree: state -> edge index
     order = [s0]
     i = 0
     while i < len(order):
         s = order[i]
         i += 1
-        for rec, t in out.get(s, []):
+        for ei in out.get(s, []):
+            t = E[ei][2]
             if t not in parent:
-                parent[t] = (s, rec)
+                parent[t] = ei
                 order.append(t)
+    covered = [False] * len(E)
     todo = {s: list(l) for s, l in out.items()}
+
+    def pending(s):
+        l = todo.get(s)
+        while l and covered[l[-1]]:
+            l.pop()
+        return bool(l)
+    def nearest(s, depth=5):
+        """Shortest path (<= depth transitions) from s to a state that still has uncovered transitions."""
+        seen = {s: None}
+        frontier = [s]
+        for _ in range(depth):
+            nxt = []
+            for x in frontier:
+                for e in out.get(x, []):
+                    t = E[e][2]
+                    if t in seen:
+                        continue
+                    seen[t] = e
+                    if pending(t):
+                        p = []
+                        while seen[t] is not None:
+                            p.append(seen[t])
+                            t = E[seen[t]][0]
+                        p.reverse()
+                        return p
+                    nxt.append(t)
+            frontier = nxt
+        return None
+
     ns = edges[0][1]["ns"] if edges else 0
     first = {"op": "init", "a": 0, "b": 0, "kd": "", "refs": ns, "walked": ns, "cyc": False, "ns": ns}
     walks = []
-    for s in order:
-        while todo.get(s):
+    for s in reversed(order):
+        while pending(s):
             path = []
             x = s
             while parent[x] is not None:
-                x, rec = parent[x]
-                path.append(rec)
+                path.append(parent[x])
+                x = E[parent[x]][0]
             path.reverse()
             cur, walk = s, []
-            while todo.get(cur) and len(walk) < maxlen:
-                rec, t = todo[cur].pop()
-                walk.append(rec)
-                cur = t
-            walks.append([first] + path + walk)
+            while len(walk) < maxlen:
+                if pending(cur):
+                    ei = todo[cur].pop()
+                else:
+                    hop = nearest(cur)
+                    if hop is None or len(walk) + len(hop) > maxlen:
+                        break
+                    walk += hop
+                    cur = E[hop[-1]][2]
+                    continue
+                walk.append(ei)
+                cur = E[ei][2]
+            for ei in path + walk:
+                covered[ei] = True
+            walks.append([first] + [E[ei][1] for ei in path + walk])
+    if not all(covered):
+        raise vlib.Inconclusive("transition cover is incomplete")
     return walks, len(ids)
 
 
@@ -197,7 +243,7 @@ def run(ctx):
     # quick tier: a seeded sample of the cover walks (the evidence says how many); thorough: all of them
     cov = [w for c in covers for w in c]
     rnd.shuffle(cov)
-    budget = 200000 if q else 10 ** 9
+    budget = 450000 if q else 10 ** 9
     used, n = [], 0
     for w in cov:
         if n + len(w["hist"]) > budget:
@@ -279,6 +325,11 @@ def report(ctx, events, fails):
                 cause = prev["op"] if prev else -1
             cls = re.sub(r"[-/].*", "", ini["src"])
             sig = {"kind": w, "op": names.get(cause, opname(cause)) if cause >= 0 else "load", "cyclic": bool(ev.get("c"))}
+            if w in ("NoUnderCount", "ExactAcyclic", "ItemsBounded", "CounterBounded") and prev is not None:
+                # types of the (up to 3) top stack items the instruction was executed on, top first
+                ar = {"SETITEM": 3, "APPEND": 2, "REMOVE": 2, "PICKITEM": 2, "HASKEY": 2, "PACK": 1, "PACKMAP": 1, "PACKSTRUCT": 1}
+                sig["operands"] = ",".join(prev.get("tt", "").split(",")[:ar.get(sig["op"], 1)])
+                sig["surplus"] = max(-3, min(3, ev.get("r", 0) - ev.get("w", 0)))
             ctx.violation(sig, {
                 "what": "clause %s of VMLimits is false on the real VM after %s (run %s, event %d of the run)" % (
                     w, sig["op"], ini["src"], li - s),
